@@ -136,15 +136,22 @@ func baseClients(r *rand.Rand) []ClientSpec {
 	cs := []ClientSpec{
 		{ID: 1, Grants: []string{"authorization_code", "refresh_token", "client_credentials", "implicit"}, RespTypes: allResp,
 			Redirects: []string{"https://c1.example/cb", "https://c1.example/cb2?x=1"}, Scopes: "openid email profile offline_access pay"},
-		{ID: 2, Grants: []string{"authorization_code", "refresh_token", "client_credentials"}, RespTypes: []string{"code"},
+		// c2 and c4 are also registered for the jwt-bearer grant: c2 gets JWT access tokens and may refresh, c4 is
+		// pairwise (opaque tokens outside client_credentials) and has no refresh_token grant
+		{ID: 2, Grants: []string{"authorization_code", "refresh_token", "client_credentials", jwtBearerGrant}, RespTypes: []string{"code"},
 			Redirects: []string{"https://c2.example/cb"}, Scopes: "openid email pay", JWT: true},
 		{ID: 3, Public: true, Grants: []string{"authorization_code", "refresh_token", "implicit"}, RespTypes: allResp,
 			Redirects: []string{"https://c3.example/cb"}, Scopes: "openid profile"},
-		{ID: 4, Grants: []string{"authorization_code", "client_credentials"}, RespTypes: []string{"code"},
+		{ID: 4, Grants: []string{"authorization_code", "client_credentials", jwtBearerGrant}, RespTypes: []string{"code"},
 			Redirects: []string{"https://c4.example/cb"}, Scopes: "openid email", JWT: true, Pairwise: true},
+		// a public client whose only business is the jwt-bearer grant (no redirect URI: it never shows up
+		// at the authorization endpoint); `pay` is a prefix scope, `profile_x` no scope of the server
+		{ID: 14, Public: true, Grants: []string{jwtBearerGrant, "refresh_token"}, Scopes: "openid profile pay profile_x"},
 	}
 	return cs
 }
+
+const jwtBearerGrant = "urn:ietf:params:oauth:grant-type:jwt-bearer"
 
 // Clients whose grant_types and response_types are NOT aligned (possible for static clients and for
 // clients written through the ClientManager; DCR refuses them): hybrid response types without the
@@ -233,6 +240,12 @@ func randomSpec(r *rand.Rand, flavour string, want map[string]bool) WorldSpec {
 		opts = append(opts, Opt{Name: name, Z: pick(r, []int{20, 60})})
 		if r.Intn(2) == 0 {
 			opts = append(opts, Opt{Name: "WithUnregisteredRedirectURIsForPAR"})
+		}
+	}
+	if want["jwtbearer"] || r.Intn(3) == 0 {
+		opts = append(opts, Opt{Name: "WithJWTBearerGrant"})
+		if r.Intn(3) == 0 {
+			opts = append(opts, Opt{Name: "WithJWTBearerGrantClientAuthnRequired"})
 		}
 	}
 	if r.Intn(3) == 0 {
@@ -734,6 +747,87 @@ func (g *SysGen) mvCC() {
 	g.learnTokens(o, c.ID, op.Scope, op.Resources)
 }
 
+// jwt-bearer (RFC 7523): clients registered / not registered for the grant with right, wrong and absent
+// credentials, an unknown client id and NO client identification at all (the anonymous client, where the
+// embedder allows it); assertions the embedder's handler accepts, refuses, and none; scopes inside and
+// outside the registration (substring, superstring, superset, a scope the server lacks), resources.
+func (g *SysGen) mvJwtBearer() {
+	var regd, other []ClientSpec
+	for _, c := range g.clients() {
+		if hasStr(c.Grants, jwtBearerGrant) {
+			regd = append(regd, c)
+		} else {
+			other = append(other, c)
+		}
+	}
+	op := Op{Kind: "Token", Grant: jwtBearerGrant}
+	op.HG, op.BA = g.hgba()
+	sub := pick(g.R, []string{"alice", "bob", "carol"})
+	op.Assertion = "ok:" + sub
+	if g.chance(g.DevRate / 2) {
+		op.Assertion = pick(g.R, []string{"", "refused-by-the-embedder", "ok", "OK:" + sub})
+	}
+	// who asks
+	var c *ClientSpec
+	switch x := g.R.Intn(10); {
+	case x < 5 && len(regd) > 0:
+		cc := pick(g.R, regd)
+		c = &cc
+		op.Cred = g.cred(c.ID)
+	case x < 7 && len(other) > 0:
+		cc := pick(g.R, other)
+		c = &cc
+		op.Cred = Cred{ID: c.ID, OK: true}
+	case x < 8 && len(regd) > 0:
+		cc := pick(g.R, regd)
+		c = &cc
+		op.Cred = Cred{ID: c.ID, OK: false} // public clients are let through with any secret
+	default:
+		op.Cred = Cred{} // nobody: no client_id, no secret
+	}
+	// what for
+	if c != nil {
+		op.Scope = g.randScopes(c)
+		if g.chance(g.DevRate / 2) {
+			// a superset of the registration inside the server's scopes, a scope only the server knows
+			op.Scope = joinSp(append(splitSp(op.Scope), pick(g.R, []string{"admin", "offline_access", "profile", "email", "profile_x"})))
+		}
+	} else {
+		// the anonymous client may ask for every scope of the server, nothing else
+		var all []string
+		for _, sc := range serverScopes {
+			if g.R.Intn(3) != 0 {
+				id := sc.ID
+				if sc.Dyn {
+					id = pick(g.R, []string{"pay:1", "pay:77"})
+				}
+				all = append(all, id)
+			}
+		}
+		if g.chance(g.DevRate) {
+			all = append(all, pick(g.R, []string{"pay", "opnid", "admin_x", "openid_x", "OPENID", "no-such-scope"}))
+		}
+		g.R.Shuffle(len(all), func(i, j int) { all[i], all[j] = all[j], all[i] })
+		op.Scope = joinSp(all)
+	}
+	if g.R.Intn(6) == 0 {
+		op.Scope = ""
+	}
+	op.Resources = g.randTokenResources(g.serverResources())
+	o := g.do(op)
+	// the issued tokens: later moves introspect / userinfo / refresh / revoke them
+	g.learnTokens(o, op.Cred.ID, op.Scope, op.Resources)
+}
+
+func hasStr(l []string, x string) bool {
+	for _, y := range l {
+		if y == x {
+			return true
+		}
+	}
+	return false
+}
+
 func (g *SysGen) randTok() (PTok, *art) {
 	var pool []*art
 	pool = append(pool, g.ats...)
@@ -762,7 +856,7 @@ func (g *SysGen) randTok() (PTok, *art) {
 func (g *SysGen) mvQuery() {
 	tok, a := g.randTok()
 	c := pick(g.R, g.clients()).ID
-	if a != nil && g.R.Intn(3) != 0 {
+	if a != nil && a.Client != 0 && g.R.Intn(3) != 0 { // (a token of the anonymous jwt-bearer client has no owner to ask)
 		c = a.Client
 	}
 	hint := ""
@@ -943,6 +1037,7 @@ func (g *SysGen) Run(nops int) {
 		{"code", g.mvTokenCode, func() bool { return len(g.codes) > 0 || g.R.Intn(6) == 0 }},
 		{"refresh", g.mvRefresh, func() bool { return len(g.rts) > 0 || g.R.Intn(6) == 0 }},
 		{"cc", g.mvCC, yes},
+		{"jwtbearer", g.mvJwtBearer, func() bool { return g.has("WithJWTBearerGrant") || g.R.Intn(10) == 0 }},
 		{"query", g.mvQuery, yes},
 		{"tick", g.mvTick, yes},
 		{"bc", g.mvBcAuthorize, func() bool { return g.has("WithCIBAGrant") || g.R.Intn(10) == 0 }},
@@ -970,7 +1065,7 @@ func (g *SysGen) Run(nops int) {
 }
 
 func defaultWeights() map[string]int {
-	return map[string]int{"authorize": 14, "callback": 8, "par": 6, "code": 14, "refresh": 10, "cc": 4, "query": 18, "tick": 8, "bc": 5, "poll": 7, "notify": 3}
+	return map[string]int{"authorize": 14, "callback": 8, "par": 6, "code": 14, "refresh": 10, "cc": 4, "jwtbearer": 5, "query": 18, "tick": 8, "bc": 5, "poll": 7, "notify": 3}
 }
 
 func NewSysGen(r *rand.Rand, spec WorldSpec) (*SysGen, error) {
